@@ -203,6 +203,10 @@ class U:
         self.functions.setdefault(("spec",) + fref.key, fref.mod.sha)
         return True, sp(self, selfobj, *args, **kwargs)
 
+    def loop(self, relpath, qual, ordinal, spec):
+        """Attach a LoopInvariant to the ordinal-th loop of a function (loops are numbered in execution order)."""
+        self.interp.loop_specs[((relpath, qual), ordinal)] = spec
+
     def inline(self, *keys):
         for k in keys:
             self.interp.inline.add(k)
@@ -508,7 +512,7 @@ def run_unit(name, repo_root=None, want_canaries=True, timeout_ms=None):
             open_jobs.append((ctx, ob, r))
     # a failed side condition of a lemma instance invalidates what was derived from it: re-examine every
     # clause of the unit on concrete instances (where no lemma is needed)
-    side_failed = [ob.name for _, ob, r in open_jobs if ob.kind == "side"]
+    side_failed = [ob.name for _, ob, r in open_jobs if ob.kind == "side" or ob.name.startswith("loopinv.")]
     if side_failed:
         for (ctx_, ob), r in zip(jobs, res1):
             if r["status"] == "proved" and ob.kind in ("post", "assert") and ob.name in seen:
@@ -521,7 +525,14 @@ def run_unit(name, repo_root=None, want_canaries=True, timeout_ms=None):
     canaries = [n for n, r in seen.items() if r and r["status"] == "pending-canary"]
     found = {}
     if (open_names or canaries) and not out["errors"]:
-        found = _concrete_search(udef, repo, dim_names, set(open_names) | set(canaries), out)
+        found = _concrete_search(udef, repo, dim_names, set(open_names) | set(canaries), out, everything=bool(side_failed))
+        if side_failed:
+            # concrete counterexamples of clauses that only exist in the unrolled (concrete) runs, e.g. the asserts
+            # of a loop body that the symbolic run covers by its invariant
+            for n, rp in found.items():
+                if n not in seen or seen[n] is None:
+                    seen[n] = {"name": n, "kind": rp.get("kind", "post"), "tags": list(udef.props), "loc": rp.get("loc"), "status": "refuted",
+                               "secs": 0.0, "backend": "z3", "note": rp.get("note", ""), "reason": "counterexample with small concrete dimensions (clause of the unrolled loop)", "replay": rp}
     # phase 3: full budget (z3 then cvc5) for what is still open and has no counterexample
     still = [(ctx, ob) for ctx, ob, _ in open_jobs if ob.name not in found]
     res3 = _solve_forked(still, timeout_ms or vc.Z3_TIMEOUT_MS, use_cvc5=True) if still else []
@@ -535,7 +546,7 @@ def run_unit(name, repo_root=None, want_canaries=True, timeout_ms=None):
     if side_failed:
         for n in list(seen):
             rec = seen[n]
-            if rec and rec["kind"] == "side" and rec["status"] == "refuted":
+            if rec and (rec["kind"] == "side" or n.startswith("loopinv.")) and rec["status"] in ("refuted", "unknown") and n not in found:
                 rec["status"] = "unknown"
                 rec["reason"] = "side condition of a lemma instance not provable (the proof route does not apply to this code); dependent clauses re-examined on concrete instances"
             elif rec and rec["kind"] in ("post", "assert") and rec["status"] == "proved" and n not in found:
@@ -557,7 +568,7 @@ def run_unit(name, repo_root=None, want_canaries=True, timeout_ms=None):
     return out
 
 
-def _concrete_search(udef, repo, dim_names, need, out):
+def _concrete_search(udef, repo, dim_names, need, out, everything=False):
     """Small concrete dimensions: quantifier-free instances give real counterexamples."""
     found = {}
     t_start = time.time()
@@ -577,7 +588,9 @@ def _concrete_search(udef, repo, dim_names, need, out):
                 out.setdefault("conc_errors", []).append(f"{dv}: {pr.error[0]}: {pr.error[1][:300]}")
                 continue
             for ob in pr.ctx.obligations:
-                if ob.name not in need or ob.name in found:
+                if ob.name in found:
+                    continue
+                if ob.name not in need and not (everything and ob.kind in ("post", "assert") and ob.expect != "sat"):
                     continue
                 try:
                     r = vc.solve(pr.ctx, ob, timeout_ms=10000, use_cvc5=False)
@@ -697,3 +710,11 @@ def sum_point_update_rows(u, rA, B_t, p_fn, nrows):
     agree = z3.ForAll([k], z3.Implies(z3.And(k >= 0, k < n, k != p), rA.body((r,), (k,)) == rB.body((r,), (k,))))
     concl = z3.If(z3.And(p >= 0, p < n), rA.app((r,)) - rB.app((r,)) == rA.body((r,), (p,)) - rB.body((r,), (p,)), rA.app((r,)) == rB.app((r,)))
     u.ctx.assume(z3.ForAll([r], z3.Implies(z3.And(r >= 0, r < zint(nrows), n == zint(rB.ns[0]), agree), concl), patterns=[rA.app((r,))]))
+
+
+def all_instance(u, red, outer, k):
+    """Ground instance of the defining axiom of an `all` reduction at bound index k (tuple for multi-index)."""
+    ks = tuple(k) if isinstance(k, (tuple, list)) else (k,)
+    outer = tuple(outer)
+    rng = z3.And(*[z3.And(zint(x) >= 0, zint(x) < zint(red.length(outer, j))) for j, x in enumerate(ks)])
+    u.ctx.assume(z3.Implies(z3.And(red.app(outer), rng), red.body(outer, tuple(zint(x) for x in ks))))
